@@ -19,9 +19,9 @@ use std::rc::Rc;
 
 type D = Rc<BDD<usize>>;
 
-pub const ROUTES: [&str; 18] = [
+pub const ROUTES: [&str; 19] = [
     "mk_choice", "dnf", "cnf", "shannon-ite", "xor-detour", "double-negation", "absorption", "demorgan", "quantifier-detour", "counting-detour",
-    "fixpoint-detour", "model-of-minterms", "retain-any+clean", "split-or-ab", "split-or-ba", "cross-env-or", "cross-env-absorption", "cross-env-ite",
+    "fixpoint-detour", "fixpoint-through-constant", "model-of-minterms", "retain-any+clean", "split-or-ab", "split-or-ba", "cross-env-or", "cross-env-absorption", "cross-env-ite",
 ];
 
 fn lit(env: &BDDEnv<usize>, label: usize, pos: bool) -> D {
@@ -138,6 +138,17 @@ pub fn build_route(env: &BDDEnv<usize>, alt: &BDDEnv<usize>, route: &str, t: &Tt
         "fixpoint-detour" => {
             let f = build_route(env, alt, "dnf", t, labels, spare, g);
             env.fp(env.mk_const(false), |r| env.or(r, Rc::clone(&f)))
+        }
+        "fixpoint-through-constant" => {
+            // an iteration that is not monotone but stabilises: false, true, f, f (f satisfiable)
+            // resp. true, false, f, f (f = false: true, false, false)
+            let f = build_route(env, alt, "dnf", t, labels, spare, g);
+            let ls: Vec<usize> = labels.to_vec();
+            if t.is_false() {
+                env.fp(env.mk_const(true), |r| env.and(Rc::clone(&f), env.not(env.all(ls.clone(), r))))
+            } else {
+                env.fp(env.mk_const(false), |r| env.or(Rc::clone(&f), env.not(env.exists(ls.clone(), r))))
+            }
         }
         "model-of-minterms" => {
             let mut r = env.mk_const(false);
@@ -353,6 +364,15 @@ fn text_route(st: &mut Stats, t: &Tt, n: u32) {
     ];
     for text in texts {
         text_route_one(st, t, n, &text, &ordering);
+    }
+    // fixed points whose iteration is NOT monotone but stabilises all the same, passing through the
+    // opposite constant on the way: false, true, F, F (F satisfiable) resp. true, false, F, F (F not valid)
+    if n > 0 && !t.is_false() {
+        text_route_one(st, t, n, &format!("lfp Zfix # ({}) | -(exists {} # Zfix)", dnf, names.join(", ")), &ordering);
+        st.bump("route_non-monotone-fixed-point");
+    }
+    if n > 0 && !t.is_true() {
+        text_route_one(st, t, n, &format!("gfp Zfix # ({}) & -(forall {} # Zfix)", dnf, names.join(", ")), &ordering);
     }
     partial_ordering_route(st, t, n, &dnf, &names);
     // the same diagram under OTHER NAMES for the same ids (identity of a symbol is its id): equal
